@@ -94,7 +94,7 @@ PROPS = {
         # the property fixes which batches / blocks are accepted: an input on which the implementation accepts what the
         # proved model rejects (or the other way round) is an input on which the property fails
         "verdict_is_spec": True,
-        "modules": ["C02"],
+        "modules": ["C02", "C02Hist"],
         "streams": [{"name": "apply", "quick": 180, "thorough": 7200}, {"name": "chain", "quick": 75, "thorough": 2400}],
         "projection": "coins_after_batch",
         "oracles": ["utxo_reference"],
@@ -151,7 +151,7 @@ PROPS = {
                         "novasmt's hexary node compression and node store are exercised, not modelled"],
     },
     "C08": {
-        "modules": ["C08"],
+        "modules": ["C08", "C08Reach"],
         "streams": [{"name": "chain", "quick": 120, "thorough": 4000}],
         "projection": "restore",
         "oracles": [],
